@@ -20,7 +20,7 @@ fn corpus_dir() -> String {
     format!("{}/tests/test_files", std::env::var("UMYA_REPO").unwrap_or("/repo".into()))
 }
 
-pub const WITNESSES: &[&str] = &["empty-author", "empty-author-second", "tooltip", "name-quotes", "name-two-parts", "name-dq-sheet-two-areas", "name-apostrophes", "header-blank"];
+pub const WITNESSES: &[&str] = &["empty-author", "empty-author-second", "tooltip", "name-quotes", "name-two-parts", "name-dq-sheet-two-areas", "name-apostrophes", "header-blank", "active-cell"];
 
 fn witness(id: &str) -> Result<Spreadsheet, String> {
     let mut book = umya_spreadsheet::new_file_empty_worksheet();
@@ -72,6 +72,11 @@ fn witness(id: &str) -> Result<Spreadsheet, String> {
         "header-blank" => {
             let ws = book.new_sheet("S1").unwrap();
             ws.get_header_footer_mut().get_odd_header_mut().set_value("&CTitle with trailing blank ");
+        }
+        "active-cell" => {
+            // witness of C06_active_cell_fails (known finding C06-worksheet-active-cell-not-saved)
+            let ws = book.new_sheet("S1").unwrap();
+            ws.set_active_cell("B2");
         }
         _ => return Err(format!("unknown witness {}", id)),
     }
@@ -406,6 +411,12 @@ pub fn run_case(out: &mut Out, header: &str) {
         fuzz_case(out, header, seed, n);
         return;
     }
+    if a.get(2) == Some(&"vpp") {
+        // view / page / protection codecs (harness/src/c06_view.rs)
+        let seed = a.get(3).and_then(|x| x.parse().ok()).unwrap_or(0);
+        crate::c06_view::vpp_case(out, header, seed);
+        return;
+    }
     out.begin(header);
     let book = match book_of(&a) {
         Ok(b) => b,
@@ -511,6 +522,9 @@ pub fn gen(tier: Tier, seed: u64) -> Vec<String> {
     }
     for _ in 0..(if tier == Tier::Thorough { 40 } else { 4 }) {
         v.push(format!("c06 reset fuzz {} 1000", rng.next() % 1_000_000_007));
+    }
+    for _ in 0..(if tier == Tier::Thorough { 3000 } else { 250 }) {
+        v.push(format!("c06 reset vpp {}", rng.next() % 1_000_000_007));
     }
     v
 }
